@@ -19,7 +19,7 @@ import vbuild, vcheck
 
 LEVEL = "proof"
 NS = "Adept.Assign."
-REQUIRED = ["C04_dataRange_sound", "C04_alias_conservative", "C04_assign_loop_is_fold", "C04_where_loop_is_fold",
+REQUIRED = ["C04_every_node_alias_test_forwards", "C04_dataRange_sound", "C04_alias_conservative", "C04_assign_loop_is_fold", "C04_where_loop_is_fold",
             "C04_seq_eq_par", "C04_copy_path", "C04_assign_semantics", "C04_compound_semantics", "C04_scalar_broadcast",
             "C04_where_semantics_partial", "C04_either_or_semantics_partial", "C04_fixed_semantics_partial",
             "C04_indexed_semantics", "C04_indexed_last_write_wins", "C04_indexed_compound_semantics_partial",
@@ -1354,10 +1354,18 @@ def account(ctx, res, label, t):
 
 
 def run(ctx, replay):
+    # regenerate the census of the alias test (every class that defines is_aliased_) from the working tree
+    import subprocess, sys
+    tr = subprocess.run([sys.executable, os.path.join(vbuild.VERIF, "translate", "alias.py")], stdout=subprocess.PIPE,
+                        stderr=subprocess.STDOUT, text=True)
+    ctx.notes["translator"] = tr.stdout.strip()[-400:]
     thms = [NS + x for x in vcheck.prop_theorems("AdeptProofs/Props/C04.lean", "C04_")]
     thms += [NS + x for x in vcheck.prop_theorems("AdeptProofs/Refute/Assign.lean", "F")]
     fails = vcheck.lean_gate(ctx, ["AdeptProofs.Props.C04", "AdeptProofs.Refute.Assign"], thms,
                              required=[NS + r for r in REQUIRED + REQUIRED_REFUTE])
+    if tr.returncode != 0:
+        fails.insert(0, "translator translate/alias.py failed: " + tr.stdout[-1200:])
+        ctx.cov["discharged"] = 0
     variants = ["sse2-O0"] if ctx.tier == "quick" else ["sse2"] + (["avx"] if cpu_has("avx") else [])
     with ThreadPoolExecutor(max_workers=len(variants)) as ex:
         exes = list(ex.map(build, variants))
